@@ -208,6 +208,72 @@ package nfsv4
 //@   assume scInv(oofs.shareCount, clonedShareAccess) && clonedShareAccess <= 3 -- established by shareCount.clone in the enclosing function before this callback is handed out
 //@   ensures every-owed-close-happens: vclosed(nil) == unsettled(nil)
 
+// NFSv4.0: a lock-owner is forgotten by its client exactly when the last of its
+// per-file states is removed. Forgetting it earlier makes the server treat the
+// owner's remaining locks as somebody else's (its own locks then conflict with
+// it); keeping it longer leaks the record.
+//@ ghost map ownerforgotten(ref) int zero
+//@ func (*nfs40LockOwnerFileState).remove
+//@   props C20 C18
+//@   at call delete#3 assert a-lock-owner-is-only-forgotten-when-no-file-state-is-left: len(los.files) == 0
+//@   at call delete#3 ghostset ownerforgotten[nil] = 1
+//@   ensures a-lock-owner-without-file-states-is-forgotten: len(los.files) == 0 ==> ownerforgotten(nil) == 1
+//@   ensures exactly-this-file-state-leaves-the-owner: len(los.files) == old(len(lofs.lockOwner.files)) - 1 && lofs.lockOwnerIndex == -1
+
+// Lease expiry only looks at the head of the list of idle clients, so the list
+// must be ordered by the time a client became idle: a client that becomes idle
+// is appended at the tail (just before the sentinel) with the current time.
+//@ func (*clientConfirmationState).insertIntoIdleList
+//@   props C18 C20
+//@   assume p.idleClientConfirmations.previousIdle != nil && p.idleClientConfirmations.previousIdle.nextIdle == &p.idleClientConfirmations && ccs != &p.idleClientConfirmations && p.idleClientConfirmations.previousIdle != ccs -- representation invariant of the circular idle list (the sentinel's predecessor is the tail; a client that is inserted is not in the list)
+//@   ensures appended-at-the-tail-so-the-list-stays-oldest-first:
+//@             ccs.nextIdle == &p.idleClientConfirmations && p.idleClientConfirmations.previousIdle == ccs &&
+//@             ccs.previousIdle == old(p.idleClientConfirmations.previousIdle) && old(p.idleClientConfirmations.previousIdle).nextIdle == ccs
+//@   ensures idle-since-now: ccs.lastSeen == p.now
+//@ func (*clientIncarnationState).insertIntoIdleList
+//@   props C18 C20
+//@   assume p.idleClientIncarnations.previousIdle != nil && p.idleClientIncarnations.previousIdle.nextIdle == &p.idleClientIncarnations && cis != &p.idleClientIncarnations && p.idleClientIncarnations.previousIdle != cis -- representation invariant of the circular idle list (the sentinel's predecessor is the tail; a client that is inserted is not in the list)
+//@   ensures appended-at-the-tail-so-the-list-stays-oldest-first:
+//@             cis.nextIdle == &p.idleClientIncarnations && p.idleClientIncarnations.previousIdle == cis &&
+//@             cis.previousIdle == old(p.idleClientIncarnations.previousIdle) && old(p.idleClientIncarnations.previousIdle).nextIdle == cis
+//@   ensures idle-since-now: cis.lastSeen == p.now
+
+// READ, WRITE and SETATTR run the completion callback they were handed together
+// with the opened leaf exactly once on every path, also when the file system
+// call itself fails. cleanupran(nil): calls of that callback by this call.
+//@ ghost map cleanupran(ref) int zero
+//@ ghost map leafobtained(ref) int zero
+//@ func (*sequenceState).opRead
+//@   props C18
+//@   at call getOpenedLeaf#1 ghostset leafobtained[nil] = ite(r2 == nfsv4.NFS4_OK, 1, 0)
+//@   at call dyn#1 ghostset cleanupran[nil] = cleanupran(nil) + 1
+//@   ensures the-temporary-hold-on-the-file-is-given-back-exactly-once: cleanupran(nil) == leafobtained(nil)
+//@ func (*sequenceState).opWrite
+//@   props C18
+//@   at call getOpenedLeaf#1 ghostset leafobtained[nil] = ite(r2 == nfsv4.NFS4_OK, 1, 0)
+//@   at call dyn#1 ghostset cleanupran[nil] = cleanupran(nil) + 1
+//@   ensures the-temporary-hold-on-the-file-is-given-back-exactly-once: cleanupran(nil) == leafobtained(nil)
+//@ func (*sequenceState).opSetAttr
+//@   props C18
+//@   at call getOpenedLeafWithRegularStateID#1 ghostset leafobtained[nil] = ite(r2 == nfsv4.NFS4_OK, 1, 0)
+//@   at call dyn#1 ghostset cleanupran[nil] = cleanupran(nil) + 1
+//@   ensures the-temporary-hold-on-the-file-is-given-back-exactly-once: cleanupran(nil) == leafobtained(nil)
+//@ func (*compoundState).opRead
+//@   props C18
+//@   at call getOpenedLeaf#1 ghostset leafobtained[nil] = ite(r2 == nfsv4.NFS4_OK, 1, 0)
+//@   at call dyn#1 ghostset cleanupran[nil] = cleanupran(nil) + 1
+//@   ensures the-temporary-hold-on-the-file-is-given-back-exactly-once: cleanupran(nil) == leafobtained(nil)
+//@ func (*compoundState).opWrite
+//@   props C18
+//@   at call getOpenedLeaf#1 ghostset leafobtained[nil] = ite(r2 == nfsv4.NFS4_OK, 1, 0)
+//@   at call dyn#1 ghostset cleanupran[nil] = cleanupran(nil) + 1
+//@   ensures the-temporary-hold-on-the-file-is-given-back-exactly-once: cleanupran(nil) == leafobtained(nil)
+//@ func (*compoundState).opSetattr
+//@   props C18
+//@   at call getOpenedLeafWithRegularStateID#1 ghostset leafobtained[nil] = ite(r2 == nfsv4.NFS4_OK, 1, 0)
+//@   at call dyn#1 ghostset cleanupran[nil] = cleanupran(nil) + 1
+//@   ensures the-temporary-hold-on-the-file-is-given-back-exactly-once: cleanupran(nil) == leafobtained(nil)
+
 // A client that is held (so that its lease cannot expire under a running
 // operation) is released again on every path of that operation: otherwise the
 // client never becomes idle, its lease never expires and its opens and locks
@@ -317,10 +383,31 @@ package nfsv4
 //@   props C19
 //@   requires oot.state != nil && lastResponse != nil
 //@   ensures transaction-closed: old(oot.state).currentTransactionWait == nil
+//@   ensures every-request-waiting-for-this-transaction-is-woken: closed(old(oot.wait))
 //@   ensures reply-recorded: shouldComplete(uf("status", old(lastResponse.response))) ==>
 //@             old(oot.state).lastSeqID == old(oot.seqID) && old(oot.state).lastResponse == lastResponse
 //@   ensures reply-not-recorded: !shouldComplete(uf("status", old(lastResponse.response))) ==>
 //@             old(oot.state).lastSeqID == old(oot.state.lastSeqID) && old(oot.state).lastResponse == old(oot.state.lastResponse)
+
+// A retransmission of a request that was answered with an error which still
+// consumed the sequence number gets that cached error reply back, unchanged
+// (only cached OK replies are additionally matched against the state ID).
+//@ func (*compoundState).opClose
+//@   props C19
+//@   trustcall complete -- the transaction was handed out by startTransaction for this owner (started, proved: non-nil, bound to the owner) and the reply passed to it was just built
+//@   ensures a-cached-error-reply-is-replayed-unchanged: st != nfsv4.NFS4_OK && typeis(lastResponse, *nfsv4.Close4res_default) ==> r0 == lastResponse
+//@ func (*compoundState).opLocku
+//@   props C19
+//@   trustcall complete -- the transaction was handed out by startTransaction for this owner (started, proved: non-nil, bound to the owner) and the reply passed to it was just built
+//@   ensures a-cached-error-reply-is-replayed-unchanged: st != nfsv4.NFS4_OK && typeis(lastResponse, *nfsv4.Locku4res_default) ==> r0 == lastResponse
+//@ func (*compoundState).opOpenConfirm
+//@   props C19
+//@   trustcall complete -- the transaction was handed out by startTransaction for this owner (started, proved: non-nil, bound to the owner) and the reply passed to it was just built
+//@   ensures a-cached-error-reply-is-replayed-unchanged: st != nfsv4.NFS4_OK && typeis(lastResponse, *nfsv4.OpenConfirm4res_default) ==> r0 == lastResponse
+//@ func (*compoundState).opOpenDowngrade
+//@   props C19
+//@   trustcall complete -- the transaction was handed out by startTransaction for this owner (started, proved: non-nil, bound to the owner) and the reply passed to it was just built
+//@   ensures a-cached-error-reply-is-replayed-unchanged: st != nfsv4.NFS4_OK && typeis(lastResponse, *nfsv4.OpenDowngrade4res_default) ==> r0 == lastResponse
 
 //@ pred loReplay(los *nfs40LockOwnerState, seqID nfsv4.Seqid4) := los.lastResponse != nil && seqID == los.lastSeqID
 //@ func (*nfs40LockOwnerState).startTransaction
